@@ -362,6 +362,19 @@ theorem write_id_fresh (stream0 : List Frame) (es : List Event) (s s' : State)
 /-- the wrap is real: request 2^32+1 reuses the wire id of request 1 (so the bound is needed) -/
 theorem ids_wrap_counterexample : wire 1 = wire 4294967297 := by decide
 
+/-- **ids are compared as 32-bit numbers and nothing else matters about them**: adding the same constant to every id
+(mod 2^32) preserves which id equals which.  This is what lets the harness run a Conn whose counter was preset to
+2^31 − 3 or −3 (`VerifSetCorrelationID`: the real ids cross the int32 overflow and the return to 0) and hand the model
+ids relative to that preset, calls numbered from 1 as always: every theorem above speaks about the relabelled run, and
+the relabelling loses nothing. -/
+theorem id_relabelling_sound (a b k : Nat) : wire (a + k) = wire (b + k) ↔ wire a = wire b := by
+  unfold wire; omega
+
+/-- the two boundaries the wrap family crosses: int32 overflow (2^31 − 1 → −2^31, the same 32 bits as 2^31) and the
+return to zero (−1 → 0) are ordinary successor steps of `wire` -/
+theorem wire_crosses_boundaries :
+    wire (2147483647 + 1) = 2147483648 ∧ wire (4294967295 + 1) = 0 ∧ wire 2147483648 ≠ wire 0 := by decide
+
 /-- the broker labels its frames truthfully: a frame carrying the wire id of a call carries the payload
 answering that call's request (tags).  It may still reorder, delay, drop, duplicate, invent ids. -/
 def Honest (stream0 : List Frame) (s : State) : Prop :=
